@@ -110,7 +110,7 @@ def run(chk, only=None):
     pr = vlib.proof_step(chk, PROP_FILE, "From SeataV Require Import Props.P_C14.")
     conf = write_conf(chk)
     vlib.build_harness()
-    jobs = [("seq", dict(mode="seq", seed=chk.seed, nseq=70 if quick else 2500, nconc=8 if quick else 120))]
+    jobs = [("seq", dict(mode="seq", seed=chk.seed, nseq=70 if quick else 2500, nconc=8 if quick else 120, maxperm=3 if quick else 5))]
     nb = 1 if quick else 6
     for i in range(nb):
         jobs.append(("batch%d" % i, dict(mode="batch", seed=chk.seed * 1000 + i, nbatch=24 if quick else 80)))
@@ -157,7 +157,7 @@ def run(chk, only=None):
         "trusted_base": TRUSTED,
         "evaluations": len(cases),
         "distinct_nontrivial": vlib.distinct([(c["c0"], c["h0"], c["events"]) for c in nt]),
-        "rule": "histories generated from the seed: sequenced (every event completes before the next; checkpoint of table size and "
+        "rule": "histories generated from the seed: every order of the replies for 1..3 (thorough 1..5) callers in flight (exhaustive, every second one with all replies duplicated afterwards); sequenced (every event completes before the next; checkpoint of table size and "
                 "parked deliveries after each), concurrent (1/2/8/64/256 callers released at once, replies from separate goroutines "
                 "with delays, permuted and duplicated; compared through a witness linearisation) and batches with real 20 s timeouts "
                 "(dropped, late, late-duplicate replies, colliding responses/heartbeats/pongs, connection loss with requests pending); "
